@@ -3,7 +3,12 @@ package main
 // Level rx: the post-handshake receive paths of a real DTLCP connection.
 //
 // case:  lvl=rx path=readfrom|read|mix suite=gcm|cbc role=server|client cfg=<Config.ReplayWindow>
-//        sent=<k> [repoch=<n>] [skip=<j>.<n>,...] [plen=<L>] script=<item>,<item>,...
+//        sent=<k> [repoch=<n>] [skip=<j>.<n>,...] [plen=<L>] [pcw=<base>] script=<item>,<item>,...
+//
+// pcw=<base> (role=server only): the server is created with a listener Config whose ReplayWindow
+// is <base> and whose GetConfigForClient returns a per-client Config with ReplayWindow cfg: the
+// Config that governs the connection (and whose size the property speaks of) is installed by the
+// handshake after the connection — and its epoch-0 window — was created from the listener's.
 //
 // skip=<j>.<n>: before protecting record j the sender moves its write sequence number to n (a
 // hook; a sender may skip ahead), so record i carries n + (i - j) for the last skip point j <= i
@@ -142,6 +147,24 @@ func executeRx(desc string) string {
 	} else {
 		scfg.ReplayWindow = cfg
 	}
+	// pcw=<base>: the listener's Config carries ReplayWindow <base> and a GetConfigForClient that
+	// answers with a Config whose ReplayWindow is cfg — the Config that governs the connection
+	// from the cookie-verified ClientHello on (the epoch-0 window was built before, from <base>).
+	perClientCalls := 0
+	_, perClient := hx.KV(desc, "pcw")
+	if perClient {
+		if role != "server" {
+			panic("pcw= needs role=server (the receiver is the connection GetConfigForClient configures)")
+		}
+		per := scfg.Clone()
+		per.ReplayWindow = cfg
+		per.GetConfigForClient = nil
+		scfg.ReplayWindow = hx.KVInt(desc, "pcw")
+		scfg.GetConfigForClient = func(*dtlcp.ClientHelloInfo) (*dtlcp.Config, error) {
+			perClientCalls++
+			return per, nil
+		}
+	}
 	if handshakeFailures >= 3 {
 		// the tree cannot complete a plain handshake: do not spend the watchdog time per case
 		return "handshake=failed"
@@ -154,6 +177,10 @@ func executeRx(desc string) string {
 		return "handshake=failed"
 	}
 	handshakeFailures = 0
+	if perClient && perClientCalls == 0 {
+		// the connection is still governed by the listener's Config: cfg is not its configured size
+		return "perclient=not-consulted"
+	}
 	rcv, snd, re, sndEnd := s, c, se, ce
 	if role == "client" {
 		rcv, snd, re, sndEnd = c, s, ce, se
@@ -657,5 +684,93 @@ func genRx(o hx.Opts, emit func(string)) {
 			continue
 		}
 		line(path, suite, role, cfg, k, sc)
+	}
+
+	// 7. connections governed by a per-client Config: the listener's Config (ReplayWindow = base)
+	// has a GetConfigForClient that answers with a Config whose ReplayWindow (= cfg) differs — the
+	// window that guards application data must have the size of the Config that governs the
+	// connection. Deep reordering of genuine records up to and beyond both sizes, then replays.
+	// (Own random stream, after everything else: the cases above do not move.)
+	clampW := func(v int) int {
+		if v <= 0 {
+			v = 64
+		}
+		return min(64, max(32, v))
+	}
+	pcPairs := [][2]int{{32, 64}, {64, 32}, {32, 0}, {0, 32}, {48, 64}, {64, 48}, {32, 48}, {128, 32}, {32, 128}, {16, 64}, {64, 16}, {33, 63}, {40, 40}}
+	if o.Tier == "thorough" {
+		for _, b := range []int{0, 1, 31, 32, 33, 47, 48, 63, 64, 65, 100, 160} {
+			for _, p := range []int{0, 1, 31, 32, 33, 47, 48, 63, 64, 65, 100, 160} {
+				pcPairs = append(pcPairs, [2]int{b, p})
+			}
+		}
+	}
+	r7 := hx.NewRand(o.Seed + 7716)
+	for pi, bp := range pcPairs {
+		base, per := bp[0], bp[1]
+		pcw := fmt.Sprintf("pcw=%d", base)
+		wb, wp := clampW(base), clampW(per)
+		for si, suite := range []string{"gcm", "cbc"} {
+			for pj, path := range []string{"readfrom", "read"} {
+				if o.Tier != "thorough" && (pi+si+pj)%2 == 1 {
+					continue
+				}
+				// newest first, then never-seen records at the boundary distances of both sizes,
+				// farthest first and nearest first; then every one of them again
+				edge := 135
+				dists := []int{1, 31, 32, 33, 47, 48, 49, 62, 63, 64, 65, wb - 1, wb, wb + 1, wp - 1, wp, wp + 1}
+				sc := []string{fmt.Sprintf("g%d", edge)}
+				for j, d := range dists {
+					if (pi+si)%2 == 1 {
+						d = dists[len(dists)-1-j]
+					}
+					sc = append(sc, fmt.Sprintf("g%d", edge-d))
+				}
+				sc = append(sc, fmt.Sprintf("f%d", edge-40), fmt.Sprintf("g%d", edge-40), fmt.Sprintf("g%d", edge))
+				for _, d := range dists {
+					sc = append(sc, fmt.Sprintf("g%d", edge-d))
+				}
+				// the edge moves by a few, the far end of the window follows
+				sc = append(sc, fmt.Sprintf("g%d", edge+3), fmt.Sprintf("g%d", edge+3-wp), fmt.Sprintf("g%d", edge+4-wp), fmt.Sprintf("g%d", edge+4-wb), fmt.Sprintf("g%d", edge+2), "q", fmt.Sprintf("g%d", edge+1))
+				lineX(path, suite, "server", per, 140, pcw, sc)
+				// a short exchange delivered back to front
+				lineX(path, suite, "server", per, 55, pcw, []string{"g50", "g30", "g19", "g18", "g17", "g10", "g1", "g50", "g30", "g18", "g10", "g1", "g51", "g2", "q"})
+			}
+			if o.Tier != "thorough" && (pi+si)%2 == 0 {
+				continue
+			}
+			// both APIs, the reordered records waiting in the socket
+			lineX("mix", suite, "server", per, 70, pcw+" plen=9", []string{"+g70", "+g30", "+g7", "R4", "F65536", "R65536", "R65536", "+g38", "+g39", "+g6", "+g30", "F3", "R65536", "F65536", "+g8", "+g70", "+q", "R65536", "R65536"})
+		}
+		// random deep reordering
+		nr := 2 * o.Scale
+		if o.Tier == "thorough" {
+			nr = 6 * o.Scale
+		}
+		for i := 0; i < nr; i++ {
+			path := hx.Pick(r7, []string{"readfrom", "read"})
+			suite := hx.Pick(r7, []string{"gcm", "cbc"})
+			k := 80 + r7.Intn(100)
+			cur := 66 + r7.Intn(k-66)
+			sc := []string{fmt.Sprintf("g%d", cur)}
+			for j := 10 + r7.Intn(40); j > 0; j-- {
+				switch x := r7.Intn(100); {
+				case x < 55: // behind the newest, around both sizes
+					d := hx.Pick(r7, []int{wb, wp, wb, wp, 32, 48, 64}) - 3 + r7.Intn(6)
+					if r7.Chance(30) {
+						d = r7.Intn(70)
+					}
+					sc = append(sc, fmt.Sprintf("g%d", max(1, cur-d)))
+				case x < 70:
+					cur = min(k, cur+1+r7.Intn(3))
+					sc = append(sc, fmt.Sprintf("g%d", cur))
+				case x < 85:
+					sc = append(sc, sc[r7.Intn(len(sc))])
+				default:
+					sc = append(sc, forged(r7, hx.Pick(r7, forgeKinds), 1+r7.Intn(k), k))
+				}
+			}
+			lineX(path, suite, "server", per, k, pcw, sc)
+		}
 	}
 }
